@@ -147,7 +147,14 @@ def random_history(rng, A, cls, kw, length, multi=False, pick=False, unsat_core=
             r = 0.96
         if r < 0.30:
             k = 1 if rng.random() < 0.8 else 2
-            H.append(["add", s, [rng.choice(A["cons"]) for _ in range(k)]])
+            batch = [rng.choice(A["cons"]) for _ in range(k)]
+            if rng.random() < 0.12:
+                # a batch with a duplicate followed by an equality / negation (deduplication and replacement-deriving
+                # code index into the batch)
+                eqs = [c for c in A["cons"] if c[0] in ("__eq__", "Not")]
+                c0 = rng.choice(A["cons"])
+                batch = [c0, c0, rng.choice(eqs)] if rng.random() < 0.5 else [c0, rng.choice(eqs), c0]
+            H.append(["add", s, batch])
         elif r < 0.82:
             q = rng.choice(QUERY_OPS)
             if q == "satisfiable":
@@ -311,7 +318,7 @@ def vbits(v, e_ast):
     raise TypeError("unexpected value %r" % (v,))
 
 
-def run_history(H, vars_, tid, cfg):
+def run_history(H, vars_, tid, cfg, step_hook=None):
     import claripy
     S = {}          # sid -> solver object
     meta = {}       # sid -> (cls, kw)
@@ -343,7 +350,9 @@ def run_history(H, vars_, tid, cfg):
                 "extra": [], "cs": [], "others": [], "anc": -1, "ret": [], "rets": [], "groups": [], "scons": [],
                 "exc": "", "excClaripy": False, "mode": "exact", "fault": 0, "fired": False, "conc": False}
 
-    for op in H:
+    for op_index, op in enumerate(H):
+        if step_hook is not None:
+            step_hook(op_index)
         call = op[0]
         if call == "fault":
             fault = (op[1], op[2] if len(op) > 2 else "timeout")
